@@ -64,7 +64,8 @@ def tasks(tier):
     ts += [("ff-two-domains",)]
     ts += [("inserter", name) for name in INSERTER_CASES]
     # memory ports are clocked by their own domain only (the two-domain configurations of C11, same obligations)
-    ts += [("memory-two-domains", 12), ("memory-two-domains", 13)]
+    ts += [("memory-two-domains", 12), ("memory-two-domains", 13), ("late-bound",)]
+    ts += [("rename-merge", c) for c in ("two-to-one", "onto-existing", "onto-existing-reversed")]
     return ts
 
 
@@ -369,6 +370,122 @@ def check_inserter(case, break_law=False):
     return runner.merge_results(name, parts)
 
 
+def check_rename_merge(case):
+    """DomainRenamer maps that make two domains of ONE fragment coincide (two sources renamed to one target, or a source
+    renamed to a domain the fragment already drives): the logic of both ends up in the target domain -- an edge of the
+    target clock updates every register as an edge of its old clock did, the target's reset loads all of them, and the old
+    domains' clocks do nothing."""
+    from amaranth.hdl import Signal, Module, ClockDomain, DomainRenamer
+    name = f"rename-merge({case})"
+    x, y, z, d = Signal(3, name="x", init=1), Signal(3, name="y", init=2), Signal(4, name="z", init=5), Signal(3, name="d")
+    inner = Module()
+    inner.d.a += [x.eq(x + d), z[0:2].eq(d[0:2])]
+    inner.d.b += [y.eq(y ^ d), z[2:4].eq(z[2:4] + 1)]
+    sub = Module()
+    w = Signal(3, name="w", init=3)
+    sub.d.b += w.eq(w - d)
+    inner.submodules.sub = sub
+    dmap, target = {"two-to-one": ({"a": "c", "b": "c"}, "c"), "onto-existing": ({"a": "b"}, "b"),
+                    "onto-existing-reversed": ({"b": "a"}, "a")}[case]
+    top = Module()
+    cds = {n: ClockDomain(n) for n in ("a", "b", "c")}
+    for cd in cds.values():
+        top.domains += cd
+    top.submodules.inner = DomainRenamer(dmap)(inner)
+    dsg = Design(top)
+    regs = [x, y, z, w]
+
+    def body(path):
+        dsg.fresh(path, "m")
+        for cd in cds.values():
+            dsg.set(cd.clk, 0)
+            dsg.set(cd.rst, 0)
+        trst = path.var("target_rst", 0, 1)
+        dsg.set(cds[target].rst, trst)
+        dsg.apply([], path, f"{name}::pre")
+        old = {s.name: dsg.val(s) for s in regs}
+        dv = dsg.val(d)
+        # edges of the domains that no longer own anything change nothing
+        for n, cd in cds.items():
+            if n == target or (case != "two-to-one" and n == "c"):
+                continue
+            dsg.apply([(cd.clk, 1)], path, f"{name}::{n}-edge")
+            path.prove(f"{name}::edge-of-{n}-changes-nothing", And(*[to_sint(dsg.val(s)) == to_sint(old[s.name]) for s in regs]))
+            dsg.apply([(cd.clk, 0)], path, f"{name}::{n}-fall")
+        dsg.apply([(cds[target].clk, 1)], path, f"{name}::target-edge")
+        exp = {"x": (old["x"] + dv) & 7, "y": (old["y"] ^ dv) & 7,
+               "z": ((dv & 3) | ((((old["z"] >> 2) + 1) & 3) << 2)) & 15, "w": (old["w"] - dv) & 7}
+        for s in regs:
+            want = ite(trst != 0, s.init, exp[s.name])
+            path.prove(f"{name}::{s.name}-updated-by-the-target-clock", to_sint(dsg.val(s)) == to_sint(want))
+    return runner.from_exploration(name, Exploration(name, body).run())
+
+
+def check_late_bound():
+    """ClockSignal(d) / ResetSignal(d) written in a fragment mean THAT fragment's domain d -- also when a subfragment defines a
+    domain of the same name of its own (which shadows the outer one below it only), wherever the submodule is added
+    relative to the statements, and for several levels.  Closed obligations on the prepared design."""
+    from amaranth.hdl import Module, Signal, ClockDomain, ClockSignal, ResetSignal, Fragment
+    obs = []
+    for order in ("sub-first", "sub-last", "two-subs"):
+        for depth in (1, 2):
+            top = Module()
+            top.domains += ClockDomain("sync")
+            o, r, q = Signal(name="o"), Signal(name="r"), Signal(2, name="q")
+
+            def mk_child(level):
+                c = Module()
+                c.domains += ClockDomain("sync")          # its own domain, same name
+                cr, co = Signal(2, name=f"cr{level}"), Signal(name=f"co{level}")
+                c.d.sync += cr.eq(cr + 1)
+                c.d.comb += co.eq(ClockSignal("sync"))
+                if level < depth:
+                    c.submodules.inner = mk_child(level + 1)
+                return c
+            plain = Module()
+            pr = Signal(2, name="pr")
+            plain.d.sync += pr.eq(pr + 1)
+            if order in ("sub-first", "two-subs"):
+                top.submodules.child = mk_child(1)
+            if order == "two-subs":
+                top.submodules.plain = plain
+            top.d.comb += [o.eq(ClockSignal("sync")), r.eq(ResetSignal("sync"))]
+            top.d.sync += q.eq(q + ResetSignal("sync"))
+            if order == "sub-last":
+                top.submodules.plain = plain
+                top.submodules.child = mk_child(1)
+            design = Fragment.get(top, None).prepare()
+            fr = design.fragment
+            cd = fr.domains["sync"]
+            st = fr.statements["comb"]
+            ok_top = st[0].rhs is cd.clk and st[1].rhs is cd.rst
+            rs = [s_ for s_ in fr.statements["sync"][0]._rhs_signals()]
+            ok_top = ok_top and any(s_ is cd.rst for s_ in rs)
+            # every shadowing child resolves to its own domain, which is not the outer one
+            ok_child = True
+            sub = dict((n, f) for f, n, _s in fr.subfragments)["child"]
+            outer = cd
+            while True:
+                ccd = sub.domains["sync"]
+                cst = sub.statements["comb"][0]
+                ok_child = ok_child and ccd is not outer and cst.rhs is ccd.clk
+                inner = dict((n, f) for f, n, _s in sub.subfragments).get("inner")
+                if inner is None:
+                    break
+                outer, sub = ccd, inner
+            if "plain" in dict((n, f) for f, n, _s in fr.subfragments):
+                pf = dict((n, f) for f, n, _s in fr.subfragments)["plain"]
+                ok_child = ok_child and pf.domains["sync"] is cd
+            nm = f"late-bound[{order},depth={depth}]"
+            fi = {"design": f"top defines 'sync'; a submodule defines its own 'sync' ({order}, {depth} level(s)); top uses ClockSignal('sync') / ResetSignal('sync')",
+                  "top statements": [repr(x) for x in st], "top domain clk": repr(cd.clk)}
+            obs.append({"name": f"{nm}::outer-fragment-resolves-in-its-own-domain", "kind": "post", "status": "proved" if ok_top else "refuted",
+                        "backend": "closed", "time_s": 0.0, **({} if ok_top else {"failing_input": fi})})
+            obs.append({"name": f"{nm}::shadowing-and-plain-subfragments", "kind": "post", "status": "proved" if ok_child else "refuted",
+                        "backend": "closed", "time_s": 0.0, **({} if ok_child else {"failing_input": fi})})
+    return {"task": "late-bound", "paths": 0, "solver_s": 0.0, "obligations": obs}
+
+
 def run_task(task):
     k = task[0]
     if k == "ff":
@@ -377,6 +494,10 @@ def run_task(task):
         return check_two_domains()
     if k == "inserter":
         return check_inserter(task[1])
+    if k == "late-bound":
+        return check_late_bound()
+    if k == "rename-merge":
+        return check_rename_merge(task[1])
     if k == "memory-two-domains":
         from . import c11
         cfg = c11.configs("thorough")[task[1]]
